@@ -49,13 +49,18 @@ def contracts(tier):
                  lambda e, p: c09.run_tmpname(e, p, 'C01'),
                  setup=c09.setup_tmp, assumptions=A9),
     ]
-    return strategies.all_contracts(tier) + acceptance + [
+    from . import writers
+    # the renderers write exactly the tokens of the list (obligations shared
+    # with C07): what the output file holds is what was accepted
+    return strategies.all_contracts(tier) + acceptance + \
+        writers.contracts(tier) + [
         Contract('C01/lemma', [], run_lemma,
                  assumptions=['the command is deterministic and its '
                               'behaviour depends on the token sequence only '
                               '(quantifier of C01)',
                               'renderers emit exactly the tokens of the list '
-                              '(C07, bounded there)']),
+                              '(contracts of contracts/writers.py, verified '
+                              'in this check)']),
     ]
 
 
